@@ -15,15 +15,27 @@
 
 /* ---- mmap guard: enlarge the PROT_NONE reservation made by qb_sys_circular_mmap ---- */
 #define TAIL (1ULL << 35)
+static struct { void *base; size_t len; } resv[8];
 void *mmap(void *addr, size_t len, int prot, int flags, int fd, off_t off)
 {
 	static void *(*real)(void *, size_t, int, int, int, off_t);
 	if (!real) real = dlsym(RTLD_NEXT, "mmap");
 	if (addr == NULL && prot == PROT_NONE && (flags & MAP_ANONYMOUS) && fd == -1) {
 		void *p = real(NULL, len + TAIL, PROT_NONE, flags | MAP_NORESERVE, -1, 0);
+		if (p != MAP_FAILED)
+			for (int i = 0; i < 8; i++) if (!resv[i].base) { resv[i].base = p; resv[i].len = len + TAIL; break; }
 		return p;
 	}
 	return real(addr, len, prot, flags, fd, off);
+}
+/* the library unmaps what it asked for; the inaccessible tail added above goes with it */
+int munmap(void *addr, size_t len)
+{
+	static int (*real)(void *, size_t);
+	if (!real) real = dlsym(RTLD_NEXT, "munmap");
+	for (int i = 0; i < 8; i++)
+		if (resv[i].base == addr) { size_t l = resv[i].len; resv[i].base = NULL; return real(addr, l); }
+	return real(addr, len);
 }
 
 static qb_ringbuffer_t *rb;
